@@ -5,6 +5,8 @@ Reads (from $VERIF_REPO, default /repo):
   zkir/src/instructions/operations/mod.rs   enum Operation (variant order = bincode index)
   zkir/src/types.rs                         enum IrType    (variant order = bincode index)
   zkir/src/instructions/arity.rs            input_arity / output_arity tables
+  zkir/src/instructions/operations/{assert_equal,assert_not_equal,is_equal}.rs
+                                            arms of `match (x, y)` of the in-circuit comparisons
   circuits/src/biguint/types.rs             LOG2_BASE
   curves/src/jubjub/curve.rs, fr.rs         EDWARDS_D, Jubjub group order
 Writes lean/MidnightZK/Gen/C18Tables.lean (relative to this file). Exits non-zero when a source
@@ -140,6 +142,53 @@ def op_sources():
     return out
 
 
+def comparison_arms(rel, fn):
+    """Arms of the `match (x, y)` of one in-circuit comparison: per arm, the two variant names (with
+    `if` when guarded) and the gadget methods called on `std_lib` (with the sub-gadget chain), in
+    order; `is_equal_incircuit` when the arm delegates to it; `iter.<adaptor>` for the iterator
+    adaptors that select which components are compared."""
+    src = strip_comments(read(rel))
+    m = re.search(r"pub fn %s\b" % fn, src)
+    if not m:
+        die("%s: fn %s not found" % (rel, fn))
+    body = src[m.end():]
+    t = re.search(r"\n#\[cfg\(test\)\]", body)
+    if t:
+        body = body[: t.start()]
+    mm = re.search(r"match \(x, y\) \{", body)
+    if not mm:
+        die("%s: `match (x, y)` not found in %s" % (rel, fn))
+    body = body[mm.end():]
+    arm_re = re.compile(r"\(\s*(\w+)\([^)]*\),\s*(\w+)\([^)]*\)\s*\)\s*(if\b(?:[^=]|==)*?)?=>")
+    starts = list(arm_re.finditer(body))
+    if not starts:
+        die("%s: no arms in %s" % (rel, fn))
+    end_all = re.search(r"\n\s*_ =>", body)
+    if not end_all:
+        die("%s: no default arm in %s" % (rel, fn))
+    out = []
+    for i, a in enumerate(starts):
+        if a.start() > end_all.start():
+            break
+        stop = starts[i + 1].start() if i + 1 < len(starts) and starts[i + 1].start() < end_all.start() else end_all.start()
+        text = body[a.end():stop]
+        calls = []
+        for c in re.finditer(r"std_lib((?:\s*\.\w+\(\))*)\s*\.(\w+)\(|\b(is_equal_incircuit)\(|\.(zip|skip|take|step_by|rev|filter|chunks|windows|skip_while|take_while)\(", text):
+            if c.group(4):
+                calls.append("iter." + c.group(4))
+            elif c.group(3):
+                calls.append("is_equal_incircuit")
+            else:
+                chain = re.sub(r"[\s()]", "", c.group(1) or "").strip(".")
+                calls.append((chain + "." if chain else "") + c.group(2))
+        name = "%s,%s%s" % (a.group(1), a.group(2), " if" if a.group(3) else "")
+        out.append((name, calls))
+    return out
+
+
+cmp_arms = [(f, comparison_arms("zkir/src/instructions/operations/%s.rs" % f, f + "_incircuit"))
+            for f in ("assert_equal", "assert_not_equal", "is_equal")]
+
 lines = [
     "/-! GENERATED by translators/c18_tables.py from the Rust sources of /repo — do not edit. -/",
     "namespace MidnightZK.C18.Gen",
@@ -170,6 +219,12 @@ lines = [
     "outside their test modules. -/",
     "def opSources : List (String × List String) := "
     + lean_list('("%s", %s)' % (n, lean_list('"%s"' % c for c in fs)) for n, fs in op_sources()),
+    "",
+    "/-- Arms of `match (x, y)` in `assert_equal_incircuit`, `assert_not_equal_incircuit` and",
+    "`is_equal_incircuit`: the operand variants (`if` = guarded arm) and the gadget methods called on",
+    "`std_lib`, in order. -/",
+    "def cmpArms : List (String × List (String × List String)) := "
+    + lean_list('("%s", %s)' % (f, lean_list('("%s", %s)' % (n, lean_list('"%s"' % c for c in cs)) for n, cs in arms)) for f, arms in cmp_arms),
     "",
     "/-- `biguint/types.rs: LOG2_BASE`. -/",
     "def log2Base : Nat := %d" % log2_base,
